@@ -265,5 +265,5 @@ HARNESSES = [
          thorough=[dict(kind='identity', n_in=n, n_w=1, bias=False, gumbel=g) for n in (1, 2, 3) for g in _B] +
                   [dict(kind=k, n_in=ni, n_w=nw, bias=b, gumbel=False) for k in ('conv2d', 'conv1d', 'linear') for ni, nw in ((1, 1), (2, 2), (3, 2), (2, 3)) for b in _B] +
                   [dict(kind=k, n_in=2, n_w=2, bias=False, gumbel=True) for k in ('conv2d', 'conv1d', 'linear')],
-         timeout=90),
+         timeout=180),
 ]
